@@ -958,7 +958,7 @@ def reform_case(case, kind, rel, form):
 def cases(ctx):
     rng = ctx.rng
     # 1. random histories
-    for _ in range(ctx.n(260, 5000)):
+    for _ in range(ctx.n(260, 4000)):
         origin = rng.choice(ORIGINS)
         kind, rel = rng.randrange(3), rng.randrange(2)
         g = Gen(rng, origin)
@@ -972,7 +972,7 @@ def cases(ctx):
             hist.append([mode, style, ops, -1])
         yield "random", mk_case(kind, rel, origin, hist)
     # 2. one history under all six configurations x owner spellings (name-form / configuration irrelevance)
-    for _ in range(ctx.n(30, 500)):
+    for _ in range(ctx.n(30, 350)):
         origin = rng.choice(ORIGINS)
         g = Gen(rng, origin)
         hist = [g.setup()]
@@ -986,7 +986,7 @@ def cases(ctx):
                 for form in forms:
                     yield "config", reform_case(base, kind, rel, form)
     # 3. crash points: an exception injected after every index of a with-block
-    for _ in range(ctx.n(60, 1200)):
+    for _ in range(ctx.n(60, 900)):
         origin = rng.choice(ORIGINS)
         kind, rel = rng.randrange(3), rng.randrange(2)
         g = Gen(rng, origin)
@@ -1006,6 +1006,23 @@ def cases(ctx):
         post = [g.op() for _ in range(rng.choice([1, 2, 4]))]
         yield "ended", mk_case(kind, rel, origin, [setup, [rng.choice([0, 1]), 0, pre + [[rng.choice([11, 12])]] + post, -1]])
         yield "readonly", mk_case(kind, rel, origin, [setup, [2, rng.randrange(2), pre + post, -1]])
+    # 5. serial arithmetic (RFC 1982): increments landing on / around 0 and 2^31, absolute values
+    for _ in range(ctx.n(60, 800)):
+        origin = rng.choice(ORIGINS)
+        kind, rel = rng.randrange(3), rng.randrange(2)
+        g = Gen(rng, origin)
+        s0 = rng.choice(SERIALS + [rng.randrange(2**32)])
+        setup = [0, 1, [[1, [[0, []], [2, [SOA, 0, rng.choice(TTLS), [[1, s0]], 1]]]]], -1]
+        incs = [1, 2, 2**31 - 2, 2**31 - 1, 2**31, (2**32 - s0) % 2**32, (2**32 - s0 + 1) % 2**32, 0, -1, 2**32 + 5]
+        ops = []
+        for _ in range(rng.choice([1, 2, 3])):
+            name = None if rng.random() < 0.5 else g.spell([])
+            if rng.random() < 0.7:
+                ops.append([5, rng.choice(incs), 1, name])
+            else:
+                ops.append([5, rng.choice([0, 2**32, s0, 1, 2**32 - 1, 2**33 + 7]), 0, name])
+            ops.append([6, g.spell([]), SOA, 0])
+        yield "serial", mk_case(kind, rel, origin, [setup, [0, rng.randrange(2), ops, -1]])
 
 
 # ------------------------------------------------------------------ exhaustive small scope (implementation vs reference)
@@ -1021,19 +1038,21 @@ X_TYPES = [A, CNAME, NSEC]
 
 
 def x_alphabet(full):
+    """full: 0 = 21 ops (add, delete by type, delete name), 1 = 60 ops, 2 = 30 ops (0 + replace)"""
     ops = []
     for n in X_NAMES:
         for ty in X_TYPES:
             sing = ty in SINGLETONS
             ops.append([1, [[0, n], [4, 300], [5, [ty, 0, 1, 0, 1]]]])
             ops.append([3, [[0, n], [4, ty]]])
-            ops.append([2, [[0, n], [2, [ty, 0, 900, [[3, 0]] if sing else [[1, 0], [3, 0]], 1]]]])
             if full:
+                ops.append([2, [[0, n], [2, [ty, 0, 900, [[3, 0]] if sing else [[1, 0], [3, 0]], 1]]]])
+            if full == 1:
                 ops.append([1, [[0, n], [2, [ty, 0, 60, [[2, 0]], 1]]]])
                 ops.append([3, [[0, n], [5, [ty, 0, 1, 0, 1]]]])
                 ops.append([4, [[0, n], [2, [ty, 0, 0, [[1, 0]], 1]]]])
         ops.append([3, [[0, n]]])
-        if full:
+        if full == 1:
             ops.append([4, [[0, n]]])
     return ops
 
@@ -1086,20 +1105,23 @@ def x_worker(job):
 def extra(ctx):
     import concurrent.futures
     import multiprocessing
+    import time
+
+    t0 = time.time()
 
     # (length, full alphabet?, all 12 combinations per sequence?)
     if ctx.tier == "thorough":
-        plan = [(1, True, True), (2, True, True), (3, True, False), (4, False, False)]
+        plan = [(1, 1, True), (2, 1, True), (3, 1, False), (4, 0, False)]
     else:
-        plan = [(1, True, True), (2, True, False), (3, False, False)]
+        plan = [(1, 1, True), (2, 1, False), (3, 2, False)]
     if os.environ.get("VERIF_C10_PLAN"):
         plan = [tuple(int(x) for x in p.split(",")) for p in os.environ["VERIF_C10_PLAN"].split(";")]
     workers = max(1, min(int(os.environ.get("VERIF_JOBS", "16")), 12))
     jobs = []
     for length, full, allc in plan:
-        na = len(x_alphabet(bool(full)))
+        na = len(x_alphabet(int(full)))
         for first in range(na):
-            jobs.append(([first], length, bool(full), bool(allc)))
+            jobs.append(([first], length, int(full), bool(allc)))
     n = 0
     F = []
     mp = multiprocessing.get_context("fork")
@@ -1110,8 +1132,9 @@ def extra(ctx):
     ctx.notes["extra_evaluations"] = n
     ctx.notes["extra_nontrivial"] = n
     ctx.notes["exhaustive"] = True
+    ctx.notes["exhaustive_wall_s"] = round(time.time() - t0, 1)
     ctx.notes["exhaustive_scope"] = (
         "every op sequence (committed, and aborted by an exception after its last op) over 3 owners x 3 types: "
-        + "; ".join(f"length {l}: {'60' if f else '30'}-op alphabet, {'all 12' if a else 'one rotating'} "
+        + "; ".join(f"length {l}: {len(x_alphabet(int(f)))}-op alphabet, {'all 12' if a else 'one rotating'} "
                     f"(zone class x relativize x owner spelling) combination(s) per sequence" for l, f, a in plan))
     return F[:6]
